@@ -71,7 +71,11 @@ def parse_dump(t):
     fd = [(t.int(), t.int(), t.int()) for _ in range(t.int())]
     t.expect('FDS')
     fds = [(t.int(), t.int(), t.int()) for _ in range(t.int())]
-    return {'cells': cells, 'faces': faces, 'cd': cd, 'fd': fd, 'fds': fds}
+    nest = None
+    if t.peek() == 'NEST':
+        t.next()
+        nest = t.int()
+    return {'cells': cells, 'faces': faces, 'cd': cd, 'fd': fd, 'fds': fds, 'nest': nest}
 
 
 def run(chk):
@@ -139,6 +143,8 @@ def run(chk):
                     if cell != left or dat != 1000 + left:
                         chk.violation('impl-vs-oracle', 'face integral (%s) of cell %d was initialised with cell %d and the datum of cell %d, %s' % (nm, left, cell, dat - 1000, where0), rp, key='data')
                         break
+            if d.get('nest'):
+                chk.violation('impl-vs-impl', 'a with-data face integral that decomposes the neighbouring cell inside init_with_data is fed other triangles than a plain face integral for %d face(s), %s' % (d['nest'], where0), rp, key='nested')
             if [c['idx'] for c in d['cells']] != active:
                 chk.violation('impl-vs-oracle', 'cell integrals come for cells %s, constructed cells are %s, %s' % ([c['idx'] for c in d['cells']], active, where0), rp, key='order')
                 continue
